@@ -1928,11 +1928,21 @@ impl<'a> Session<'a> {
                 let cm = costmdls(*langs);
                 let tx = &mut self.tx;
                 g!(tx.calc_script_data_hash(&cm));
-                if !self.sdh_present {
-                    // a field appears in the body that was not there when the fee was fixed
+                // (a calculation over nothing - no redeemer, no datum yet - leaves the body without the field)
+                // (probed on a copy that is given some fee, so that a body can be made before the balancing)
+                let mut probe = self.tx.clone();
+                if probe.get_fee_if_set().is_none() {
+                    probe.set_fee(&bn(2_000_000));
+                }
+                let (now_present, known) = match guard(|| probe.build()) {
+                    Ok(b) => (b.script_data_hash().is_some(), true),
+                    Err(_) => (true, false),
+                };
+                if now_present != self.sdh_present || !known {
+                    // a field appears in (or leaves) the body that was (not) there when the fee was fixed
                     self.mark_value_change();
                 }
-                self.sdh_present = true;
+                self.sdh_present = now_present;
                 self.sdh_at = Some(idx);
                 self.dirty_sdh = false;
                 self.sdh_langs = *langs;
